@@ -67,9 +67,15 @@ func (portHistWorld) Gen(seed uint64, tier string) core.Scenario {
 		switch r.Weighted(8, 10, 6, 6, 14, 12, 36, 8) {
 		case 0:
 			op.Op = "openIn"
+			if r.Chance(1, 4) {
+				op.Op = "inByNumber" // drivers.InByNumber(0): look the port up in the registry and open it
+			}
 			m.inOpen = true
 		case 1:
 			op.Op = "openOut"
+			if r.Chance(1, 4) {
+				op.Op = "outByName" // drivers.OutByName(name)
+			}
 			m.outOpen = true
 		case 2:
 			if m.listener >= 0 { // the listening must be stopped before the port may be closed
@@ -113,6 +119,10 @@ func (portHistWorld) Gen(seed uint64, tier string) core.Scenario {
 			m.stopped[op.Ref] = true
 		case 6:
 			op.Op = "send"
+			if r.Chance(1, 8) {
+				op.Op = "sendTo" // midi.SendTo(out) opens the port if necessary, then sends
+				m.outOpen = true
+			}
 			k := 1
 			if r.Chance(1, 5) {
 				k = r.Range(2, 3)
@@ -146,7 +156,7 @@ func (s *PortHist) valid() bool {
 	m := portModel{listener: -1}
 	for i, op := range s.Ops {
 		switch op.Op {
-		case "openIn":
+		case "openIn", "inByNumber":
 			m.inOpen = true
 		case "closeIn":
 			if m.listener >= 0 {
@@ -234,7 +244,8 @@ func (s *PortHist) Run(env *core.Env, st *core.Stats) (vs []core.Violation) {
 				panOp = cur
 			}
 		}()
-		drv := testdrv.New("ports")
+		drv := testdrv.New("testdrv")
+		drivers.Register(drv) // replaces the instance of the same name in the registry: the lookup helpers find this run's driver
 		ins, _ := drv.Ins()
 		outs, _ := drv.Outs()
 		in, out := ins[0], outs[0]
@@ -254,6 +265,28 @@ func (s *PortHist) Run(env *core.Env, st *core.Stats) (vs []core.Violation) {
 			state := fmt.Sprintf("in=%v,out=%v,listening=%v", m.inOpen, m.outOpen, m.listener >= 0)
 			st.ReachKey(state + "|" + op.Op)
 			switch op.Op {
+			case "inByNumber", "outByName":
+				var p drivers.Port
+				var err error
+				if op.Op == "inByNumber" {
+					var x drivers.In
+					x, err = drivers.InByNumber(in.Number())
+					p = x
+					m.inOpen = true
+				} else {
+					var x drivers.Out
+					x, err = drivers.OutByName(out.String())
+					p = x
+					m.outOpen = true
+				}
+				switch {
+				case err != nil || p == nil:
+					fail("lookup-helpers", op.Op, "op %d: %s failed: %v", i, op.Op, err)
+				case !p.IsOpen():
+					fail("lookup-helpers", op.Op+"-not-open", "op %d: %s returned a port that is not open", i, op.Op)
+				case (op.Op == "inByNumber" && !in.IsOpen()) || (op.Op == "outByName" && !out.IsOpen()):
+					fail("lookup-helpers", op.Op+"-other-object", "op %d: %s opened a port object that does not share its state with the driver's port", i, op.Op)
+				}
 			case "openIn":
 				if err := in.Open(); err != nil {
 					fail("idempotent-open-close", "openIn", "op %d: in.Open() = %v", i, err)
@@ -333,12 +366,24 @@ func (s *PortHist) Run(env *core.Env, st *core.Stats) (vs []core.Violation) {
 				m.stopped[op.Ref] = true
 			case "sleep":
 				drv.Sleep(time.Duration(op.Ms) * time.Millisecond)
-			case "send":
+			case "send", "sendTo":
 				before := len(calls)
 				if len(op.Data) == 0 {
 					st.Probe("send-of-empty-chunk")
 				}
-				err := out.Send(append([]byte{}, op.Data...))
+				var err error
+				if op.Op == "sendTo" {
+					st.Probe("midi.SendTo")
+					send, e := midi.SendTo(out)
+					if e != nil || send == nil {
+						fail("lookup-helpers", "sendTo", "op %d: midi.SendTo failed: %v", i, e)
+						break
+					}
+					m.outOpen = true
+					err = send(midi.Message(append([]byte{}, op.Data...)))
+				} else {
+					err = out.Send(append([]byte{}, op.Data...))
+				}
 				got := calls[before:]
 				switch {
 				case !m.outOpen:
